@@ -190,9 +190,15 @@ impl Sink for NoNul {
 
 /// C14 (quit mode): whatever the strategy, flags and position of the NUL byte -- also beyond the first
 /// 64 KiB that the slice strategy sniffs -- no delivered match or context line contains it
-pub fn quit_mode_never_delivers_nul(prefix_lines: usize, tail: &[u8], invert: bool, after: usize, before: usize, stop_on_nonmatch: bool, reader: bool) -> bool {
-    let mut input: Vec<u8> = Vec::with_capacity(prefix_lines * 8 + tail.len());
-    for _ in 0..prefix_lines { input.extend_from_slice(b"filler.\n"); }
+pub fn quit_mode_never_delivers_nul(prefix_bytes: usize, tail: &[u8], invert: bool, after: usize, before: usize, stop_on_nonmatch: bool, reader: bool) -> bool {
+    // a prefix of exactly `prefix_bytes` bytes of non-matching filler lines (the last one shorter if needed),
+    // so that the tail can sit beyond, or straddle, the 64 KiB the slice strategy sniffs
+    let mut input: Vec<u8> = Vec::with_capacity(prefix_bytes + tail.len());
+    for _ in 0..prefix_bytes / 8 { input.extend_from_slice(b"filler.\n"); }
+    if prefix_bytes % 8 > 0 {
+        for _ in 0..prefix_bytes % 8 - 1 { input.push(b'y'); }
+        input.push(b'\n');
+    }
     input.extend_from_slice(tail);
     let mut searcher = SearcherBuilder::new().line_number(true).invert_match(invert)
         .after_context(after).before_context(before).stop_on_nonmatch(stop_on_nonmatch)
@@ -311,7 +317,7 @@ pub fn replay_main() -> i32 {
     if std::env::var("VERIF_REPLAY_BINARY").is_ok() {
         let g = |k: &str| std::env::var(k).ok().and_then(|v| v.parse::<usize>().ok()).unwrap_or(0);
         let ok = quit_mode_never_delivers_nul(g("VERIF_REPLAY_PREFIX"), &bytes, inv, after, before, g("VERIF_REPLAY_SON") != 0, g("VERIF_REPLAY_READER") != 0);
-        println!("replay: quit-mode search (prefix {} filler lines, tail {:?}): {}", g("VERIF_REPLAY_PREFIX"), bytes, if ok { "no NUL delivered" } else { "A NUL BYTE WAS DELIVERED" });
+        println!("replay: quit-mode search (prefix of {} filler bytes, tail {:?}): {}", g("VERIF_REPLAY_PREFIX"), bytes, if ok { "no NUL delivered" } else { "A NUL BYTE WAS DELIVERED" });
         return if ok { 0 } else { 1 };
     }
     if std::env::var("VERIF_REPLAY_REFERENCE").is_ok() {
@@ -384,7 +390,8 @@ pub fn exhaustive_small() -> bool {
             }}}
         }
     }
-    // C14: inputs over {x, \n, a, NUL} up to 4 bytes, directly and behind a 72 KiB prefix of filler lines
+    // C14: inputs over {x, \n, a, NUL} up to 4 bytes, directly, behind a 72 KiB prefix of filler lines, and
+    // straddling the 64 KiB boundary (prefixes of 65533..65535 bytes)
     let alpha4 = [b'x', b'\n', b'a', 0u8];
     let mut u = [0u8; 4];
     for n in 0..=4usize {
@@ -393,10 +400,10 @@ pub fn exhaustive_small() -> bool {
             let mut c = code;
             for i in 0..n { u[i] = alpha4[c % 4]; c /= 4; }
             if !u[..n].contains(&0) { continue; }
-            for prefix in [0usize, 9216] { for inv in [false, true] { for after in 0..2usize { for before in 0..2usize {
+            for prefix in [0usize, 73728, 65533, 65534, 65535] { for inv in [false, true] { for after in 0..2usize { for before in 0..2usize {
                 for son in [false, true] { for reader in [false, true] {
                     if !quit_mode_never_delivers_nul(prefix, &u[..n], inv, after, before, son, reader) {
-                        println!("FAILING CASE binary-quit prefix_lines={} tail={:?} invert={} after={} before={} stop_on_nonmatch={} reader={}", prefix, &u[..n], inv, after, before, son, reader);
+                        println!("FAILING CASE binary-quit prefix_bytes={} tail={:?} invert={} after={} before={} stop_on_nonmatch={} reader={}", prefix, &u[..n], inv, after, before, son, reader);
                         println!("VERIF_REPLAY_HEX={} VERIF_REPLAY_INVERT={} VERIF_REPLAY_AFTER={} VERIF_REPLAY_BEFORE={} VERIF_REPLAY_PREFIX={} VERIF_REPLAY_SON={} VERIF_REPLAY_READER={} VERIF_REPLAY_BINARY=1",
                             u[..n].iter().map(|b| format!("{:02x}", b)).collect::<String>(), inv as u8, after, before, prefix, son as u8, reader as u8);
                         return false;
